@@ -103,7 +103,7 @@ pub fn run(env: &Env, run: &Run) -> (Stats, Coverage) {
     });
     st.merge(cpsweep(|c, st| {
         let x = c as u32;
-        for l in [vec![x], vec![0x61, x], vec![x, 0x41], vec![0xFF21, x], vec![0x5D0, x], vec![x, 0x301], vec![0xC9, x, 0xFF21], vec![0x61, x, 0x334]] {
+        for l in [vec![x], vec![0x61, x], vec![x, 0x41], vec![0xFF21, x], vec![0x5D0, x], vec![x, 0x301], vec![0xC9, x, 0xFF21], vec![0x61, x, 0x334], vec![0x130, x]] {
             let s = from_cps(&l);
             for p in [Prof::Ucm, Prof::Ucp] {
                 check_op(env, p, Op::Prepare, &s, st);
@@ -157,7 +157,7 @@ pub fn run(env: &Env, run: &Run) -> (Stats, Coverage) {
     let cov = Coverage {
         rule: format!("every string of length <= {} over a 28-symbol alphabet chosen so that every pair of steps interacts (width x validation, width x NFC, case x NFC, case x validation order, contextual, RTL) x 2 profiles x {{prepare, enforce}} + pumped runs and ASCII block strings + every scalar value in 7 templates and next to each of its 16 other-plane aliases; oracle = width(UnicodeData decomposition tags) -> non-empty -> IdentifierClass(first offender) [-> lowercase] -> NFC -> non-empty -> directionality (implementation's own rule as a black box, C09 owns it); non-trivial = at least two steps change the string, or the failure comes from step >= 3", n),
         alphabet: json!(sigma.iter().map(|c| format!("U+{:04X}", *c as u32)).collect::<Vec<_>>()),
-        bound_completed: format!("length <= {} ({} strings) x 2 profiles x 2 ops; sweep 1,112,064 x 8 templates x 2 x 2", n, tree_size(sigma.len(), n)),
+        bound_completed: format!("length <= {} ({} strings) x 2 profiles x 2 ops; sweep 1,112,064 x 9 templates x 2 x 2", n, tree_size(sigma.len(), n)),
         exhaustive: false,
         assumptions: vec!["char::to_lowercase and unicode-normalization are the trusted mapping data (the README documents them as the mapping used)".into(), "directionality step taken from the implementation (decided by C09)".into()],
         extra: json!({}),
